@@ -91,6 +91,7 @@ def routeJson (r : Route) : Json :=
 /-! ### stream machine -/
 
 instance : Inhabited Forest := ⟨.nil⟩
+instance : Inhabited Fwd.Forest := ⟨.nil⟩
 
 partial def parseForest (items : List Json) : Forest :=
   match items with
@@ -146,8 +147,44 @@ def streamAnswer (evs : List Ev) : Json :=
     ("out", Json.mkObj (as.map fun a => (toString a, match s.out a with | none => Json.null | some l => toksJson l))),
     ("spec", Json.mkObj (as.map fun a => (toString a, toksJson (writesOf a evs))))]
 
+/-! ### stream machine with the live copy (`Fwd`): `{"op":"streamfwd","forest":[ITEM…]}` with
+    ITEM = `["w",n]` | `["x",b,on,[ITEM…]]` | `["k",b]` -> `{"cell":"orig"|"other","unbound":b,"nodup":b,
+    "allOff":b,"origLog":[TOK…],"out":{"a":[TOK…]|null},"spec":{"a":[TOK…]}}` -/
+
+partial def parseFwdForest (items : List Json) : Fwd.Forest :=
+  match items with
+  | [] => .nil
+  | it :: rest =>
+    match asArr it with
+    | [tag, n] =>
+      if asStr tag = "w" then .write (asNat n) (parseFwdForest rest)
+      else if asStr tag = "k" then .kw (asNat n) (parseFwdForest rest)
+      else parseFwdForest rest
+    | [tag, b, on, body] =>
+      if asStr tag = "x" then
+        .exec (asNat b) ((on.getBool?).toOption.getD false) (parseFwdForest (asArr body)) (parseFwdForest rest)
+      else parseFwdForest rest
+    | _ => parseFwdForest rest
+
+def fwdAuthors (evs : List Fwd.Ev) : List Act :=
+  (evs.filterMap fun | .save a => some a | _ => none).eraseDups
+
+def fwdAnswer (evs : List Fwd.Ev) : Json :=
+  let s := Fwd.run Fwd.St.init evs
+  let as := fwdAuthors evs
+  Json.mkObj [
+    ("cell", Json.str (if s.cell == .orig then "orig" else "other")),
+    ("unbound", Json.bool s.unbound),
+    ("nodup", Json.bool (decide (Fwd.started evs).Nodup)),
+    ("allOff", Json.bool (Fwd.allOff evs)),
+    ("nsteps", toJson evs.length),
+    ("origLog", toksJson s.origLog),
+    ("out", Json.mkObj (as.map fun a => (toString a, match s.out a with | none => Json.null | some l => toksJson l))),
+    ("spec", Json.mkObj (as.map fun a => (toString a, toksJson (Fwd.writesOf a evs))))]
+
 def handle (j : Json) : Json :=
   match jstr j "op" with
+  | "streamfwd" => fwdAnswer (Fwd.flatten none (parseFwdForest (jarr j "forest")))
   | "py" | "cmd" =>
     match actionRes j with
     | some a => aresJson a
